@@ -111,6 +111,17 @@ def _get_enforcer(namespace):
     return enforcer
 
 
+def _quote_check_str(check_str):
+    """Return a rule value as the body of a double-quoted YAML/JSON string.
+
+    Rules in the legacy list-of-lists syntax are rewritten in the policy
+    language; backslashes and double quotes are escaped.
+    """
+    if not isinstance(check_str, str):
+        check_str = str(policy._parser.parse_rule(check_str))
+    return check_str.replace('\\', '\\\\').replace('"', '\\"')
+
+
 def _format_help_text(description):
     """Format a comment for a policy based on the description provided.
 
@@ -175,7 +186,7 @@ def _format_rule_default_yaml(default, include_help=True, comment_rule=True,
     """  # noqa: E501
     text = ('"%(name)s": "%(check_str)s"\n' %
             {'name': default.name,
-             'check_str': default.check_str})
+             'check_str': _quote_check_str(default.check_str)})
 
     if include_help:
         op = ""
@@ -261,7 +272,7 @@ def _format_rule_default_json(default):
     """  # noqa: E501
     return ('"%(name)s": "%(check_str)s"' %
             {'name': default.name,
-             'check_str': default.check_str})
+             'check_str': _quote_check_str(default.check_str)})
 
 
 def _sort_and_format_by_section(policies, output_format='yaml',
@@ -511,7 +522,7 @@ def _convert_policy_json_to_yaml(namespace, policy_file, output_file=None):
     for file_rule, check_str in file_policies.items():
         rule_text = ('"%(name)s": "%(check_str)s"\n' %
                      {'name': file_rule,
-                      'check_str': check_str})
+                      'check_str': _quote_check_str(check_str)})
         yaml_format_rules.append(rule_text)
 
     if output_file:
